@@ -141,13 +141,13 @@ Print Assumptions C02_roundtrip_commitment.
    every session, e.g. for a forged bid that re-uses the digest and signature of a genuine
    bid verified a moment earlier).  The model is stateless because the Go struct has no
    mutable field; the "session" classes of the driver compare this with the implementation. *)
-Theorem C02_verify_stateless :
+Lemma C02_verify_stateless_model_shape :
   forall (K : bytes -> bytes) (cr : crypto) (pre1 post1 pre2 post2 : list sig_call) (c : sig_call),
   nth_error (sig_session K cr (pre1 ++ c :: post1)) (length pre1) = Some (sig_verdict K cr c) /\
   nth_error (sig_session K cr (pre1 ++ c :: post1)) (length pre1) =
   nth_error (sig_session K cr (pre2 ++ c :: post2)) (length pre2).
 Proof. exact session_stateless. Qed.
-Print Assumptions C02_verify_stateless.
+Print Assumptions C02_verify_stateless_model_shape.
 
 (* Documented reading of "field value": these changes of the BYTES of a valid message are not
    changes of a signed value, and verify exactly as the original does (same address).
@@ -226,6 +226,99 @@ Theorem C02_group_perturbation : forall (n : Z), prime n -> (n mod 2 = 1)%Z -> (
      forall a', verify_bid K cr (with_sig b (g_neg_s n rs ++ [v'])) <> Ok a').
 Proof. exact group_perturbation_all. Qed.
 Print Assumptions C02_group_perturbation.
+
+(* The same for COMMITMENTS (the commitment's own signature replaced by the other recovery bit or
+   by r||(n-s); another embedded bid -- other values, or other digest / signature bytes -- with the
+   commitment digest recomputed and the OLD commitment signature), for every crypto library obeying
+   L1-L3 and address injectivity. *)
+Theorem C02_commitment_perturbation :
+  forall (K : bytes -> bytes) (cr : crypto) (neg_s : bytes -> bytes) (zn : bytes -> Z) (klen : nat),
+  (forall m, length (K m) = klen) ->
+  (forall h rs pk pk', length rs = 64%nat ->
+     recover cr h (rs ++ [0]) = Ok pk -> recover cr h (rs ++ [1]) = Ok pk' -> pk <> pk') ->
+  (forall pk pk' h rs, length rs = 64%nat ->
+     verify_rs cr pk h rs = true -> verify_rs cr pk' h (neg_s rs) = false) ->
+  (forall d d' sig pk pk', zn d <> zn d' ->
+     recover cr d sig = Ok pk -> recover cr d' sig = Ok pk' -> pk <> pk') ->
+  (forall p q, addr_of cr p = addr_of cr q -> p = q) ->
+  (forall c rs v v' a a', length rs = 64%nat -> v_to01 v = 0 -> v_to01 v' = 1 ->
+     verify_preconf K cr (with_csig c (rs ++ [v])) = Ok a ->
+     verify_preconf K cr (with_csig c (rs ++ [v'])) = Ok a' -> a' <> a) /\
+  (forall c rs v v' a, length rs = 64%nat ->
+     verify_preconf K cr (with_csig c (rs ++ [v])) = Ok a ->
+     forall a', verify_preconf K cr (with_csig c (neg_s rs ++ [v'])) <> Ok a') /\
+  (forall c c' b b' a a' d d',
+     c_bid c = Some b -> c_bid c' = Some b' ->
+     (- 2 ^ 63 <= b_bn b < 2 ^ 63 /\ - 2 ^ 63 <= b_ds b < 2 ^ 63 /\ - 2 ^ 63 <= b_de b < 2 ^ 63)%Z ->
+     (- 2 ^ 63 <= b_bn b' < 2 ^ 63 /\ - 2 ^ 63 <= b_ds b' < 2 ^ 63 /\ - 2 ^ 63 <= b_de b' < 2 ^ 63)%Z ->
+     (wf_bytes (obytes (b_dig b)) /\ wf_bytes (obytes (b_sig b))) ->
+     (wf_bytes (obytes (b_dig b')) /\ wf_bytes (obytes (b_sig b'))) ->
+     verify_preconf K cr c = Ok a -> verify_preconf K cr c' = Ok a' ->
+     c_sig c' = c_sig c -> c_dig c = Some d -> c_dig c' = Some d' ->
+     ~ ((b_tx b = b_tx b' /\
+         (exists A, parse_amount (b_amt b) = Some A /\ parse_amount (b_amt b') = Some A) /\
+         b_bn b = b_bn b' /\ b_ds b = b_ds b' /\ b_de b = b_de b') /\
+        obytes (b_dig b) = obytes (b_dig b') /\ obytes (b_sig b) = obytes (b_sig b')) ->
+     a' <> a \/ (d <> d' /\ zn d = zn d') \/
+     (exists x y : bytes, In (x, y) (commitment_preimage_pairs K b b') /\ x <> y /\ K x = K y)).
+Proof. exact commitment_perturbation_all. Qed.
+Print Assumptions C02_commitment_perturbation.
+
+(* For the crypto record of the abstract group all of it holds outright: digest substitution for
+   bids (completing C02_group_perturbation) and the three perturbations for commitments. *)
+Theorem C02_group_perturbation_full : forall (n : Z), prime n -> (n mod 2 = 1)%Z -> (n < 2 ^ 256)%Z ->
+  forall (rinv_of : Z -> Z), (forall r, (0 < r < n)%Z -> ((r * rinv_of r) mod n = 1)%Z) ->
+  forall (lift : Z -> N -> option Z),
+  (forall r v k, lift r v = Some k -> (0 < k < n)%Z) ->
+  (forall r k k', lift r 0 = Some k -> lift r 1 = Some k' -> (k' = n - k)%Z) ->
+  let cr := group_crypto n rinv_of lift in
+  forall (K : bytes -> bytes) (klen : nat), (forall m, length (K m) = klen) ->
+  (forall b b' a a' d d', int64_fields b -> int64_fields b' ->
+     verify_bid K cr b = Ok a -> verify_bid K cr b' = Ok a' ->
+     b_sig b' = b_sig b -> b_dig b = Some d -> b_dig b' = Some d' ->
+     ~ same_bid_fields b b' ->
+     a' <> a \/ (d <> d' /\ g_zn n d = g_zn n d') \/ collision_among K (bid_preimage_pairs K b b')) /\
+  (forall c rs v v' a a', length rs = 64%nat -> v_to01 v = 0 -> v_to01 v' = 1 ->
+     verify_preconf K cr (with_csig c (rs ++ [v])) = Ok a ->
+     verify_preconf K cr (with_csig c (rs ++ [v'])) = Ok a' -> a' <> a) /\
+  (forall c rs v v' a, length rs = 64%nat ->
+     verify_preconf K cr (with_csig c (rs ++ [v])) = Ok a ->
+     forall a', verify_preconf K cr (with_csig c (g_neg_s n rs ++ [v'])) <> Ok a') /\
+  (forall c c' b b' a a' d d',
+     c_bid c = Some b -> c_bid c' = Some b' ->
+     int64_fields b -> int64_fields b' -> wf_bid b -> wf_bid b' ->
+     verify_preconf K cr c = Ok a -> verify_preconf K cr c' = Ok a' ->
+     c_sig c' = c_sig c -> c_dig c = Some d -> c_dig c' = Some d' ->
+     different_commitment_content b b' ->
+     a' <> a \/ (d <> d' /\ g_zn n d = g_zn n d') \/ collision_among K (commitment_preimage_pairs K b b')).
+Proof. exact group_perturbation_full. Qed.
+Print Assumptions C02_group_perturbation_full.
+
+(* Round trip naming the node's own address: if own (what KeySigner.GetAddress() returns) is the
+   address of the key recovered from the key signer's answers -- observed for every generated key
+   in each run (Check_C02.signer_genuine) -- the node's bids and commitments verify to own. *)
+Theorem C02_roundtrip_own : forall (K : bytes -> bytes) (cr : crypto) (pk own : bytes),
+  (forall h sg, sign cr h = Ok sg ->
+     length sg = 65%nat /\ (nth_error sg 64 = Some 0 \/ nth_error sg 64 = Some 1) /\
+     recover cr h sg = Ok pk /\ verify_rs cr pk h (firstn 64 sg) = true) ->
+  addr_of cr pk = own ->
+  (forall tx amt bn ds de b, construct_bid K cr tx amt bn ds de = Ok b -> verify_bid K cr b = Ok own) /\
+  (forall ob c, construct_preconf K cr ob = Ok c -> verify_preconf K cr c = Ok own).
+Proof. exact (fun K cr pk own RS E => conj (construct_bid_verifies_own K cr pk own RS E)
+                                          (construct_preconf_verifies_own K cr pk own RS E)). Qed.
+Print Assumptions C02_roundtrip_own.
+
+(* Which amount spellings share a digest: those that parse (big.Int.SetString, base 10: optional
+   sign, digits) to the same integer -- "200", "+200", "0200", "000200"; "0", "-0".  The converse
+   is C02_binding_bid.  This is the interpretation fixed in DESIGN 0.3: a field's value is the
+   hashed value. *)
+Theorem C02_amount_aliases_same_digest : forall (K : bytes -> bytes) (b : bid) (amt' : bytes),
+  parse_amount amt' = parse_amount (b_amt b) ->
+  bid_hash K (with_amt b amt') = bid_hash K b /\
+  forall dg sg pv, commitment_hash K {| c_bid := Some (with_amt b amt'); c_dig := dg; c_sig := sg; c_prov := pv |} =
+                   commitment_hash K {| c_bid := Some b; c_dig := dg; c_sig := sg; c_prov := pv |}.
+Proof. exact amount_aliases_same_digest. Qed.
+Print Assumptions C02_amount_aliases_same_digest.
 
 (* In the group itself: another digest scalar, or another s, recovers another key. *)
 Theorem C02_malleation_digest_and_s : forall n : Z, prime n -> (n mod 2 = 1)%Z ->
